@@ -456,3 +456,95 @@ Proof.
   rewrite (hresponses_agree k cfg allow _ Hcfg Hor), (hresponses_agree k cfg allow _ Hcfg HorH).
   apply (http_add_version_cas_a cfg allow h c p cs E Hcfg Hc Hb Hor).
 Qed.
+
+(* ---- the chain walk (C01), as HTTP clients see it ---- *)
+Definition gcv_req (c p : id) : hreq := mkReq MGet (PGetChild (IdOk p)) (COk c) CTAbsent [].
+(* one get-child-version request per id, each with its own environment *)
+Definition hgcvs (c : id) (pes : list (id * env)) : list (hreq * env) :=
+  map (fun pe => (gcv_req c (fst pe), snd pe)) pes.
+
+Lemma lib_of_gcvs allow c pes : client_id_header allow (COk c) = inl c ->
+  lib_of allow (hgcvs c pes) = map (fun pe => (OGetChild c (fst pe), snd pe)) pes.
+Proof.
+  intros Hc. induction pes as [|[p E] pes IH]; [reflexivity|]. cbn [hgcvs map lib_of fst snd]. fold (hgcvs c pes). rewrite IH.
+  unfold lib_of_req, gcv_req. cbn [rq_cid rq_method rq_path]. rewrite Hc. reflexivity.
+Qed.
+
+Lemma hresps_of_gcvs cfg allow c pes : client_id_header allow (COk c) = inl c -> forall rs, length rs = length pes ->
+  hresps_of cfg allow (hgcvs c pes) rs = map (fun r => default_headers (encode r)) rs.
+Proof.
+  intros Hc. induction pes as [|[p E] pes IH]; intros rs Hl; destruct rs as [|r rs]; cbn in Hl; try discriminate; [reflexivity|].
+  assert (Hl1 : lib_of_req allow (gcv_req c p) E = [(OGetChild c p, E)]).
+  { unfold lib_of_req, gcv_req. cbn [rq_cid rq_method rq_path]. rewrite Hc. reflexivity. }
+  cbn [hgcvs map hresps_of fst snd]. fold (hgcvs c pes). rewrite Hl1.
+  cbn [length firstn skipn hresp_of last]. f_equal. apply IH. lia.
+Qed.
+
+(* the answers to child lookups do not depend on the environment they are given *)
+Lemma gcv_run_env cfg a c pes : a_ok a = true ->
+  arun cfg a (map (fun pe => (OGetChild c (fst pe), snd pe)) pes) = arun cfg a (gcv_ops c (map fst pes)).
+Proof.
+  intros Hok. induction pes as [|[p E] pes IH]; [reflexivity|].
+  cbn [map fst snd gcv_ops]. fold (gcv_ops c (map fst pes)). rewrite !arun_cons. rewrite !gcv_step by exact Hok. cbn [fst snd].
+  rewrite IH. reflexivity.
+Qed.
+
+Lemma map_fst_combine_len {A B} (l : list A) (l' : list B) : length l = length l' -> map fst (combine l l') = l.
+Proof.
+  revert l'. induction l as [|x l IH]; intros [|y l'] H; cbn in *; try discriminate; [reflexivity|].
+  rewrite IH by lia. reflexivity.
+Qed.
+
+Theorem http_chain_walk_a cfg allow h c Es : cfg_ok cfg -> client_id_header allow (COk c) = inl c ->
+  let acc := accepted c (lib_of allow h) (aresponses cfg (lib_of allow h)) in
+  acc <> [] -> length Es = S (length acc) ->
+  let walk := hgcvs c (combine (base_of acc :: ids_of acc) Es) in
+  horacle_ok (h ++ walk) ->
+  haresponses cfg allow (h ++ walk) =
+  haresponses cfg allow h ++
+  map (fun v => mkResp 200 (Some (v_id v)) (Some (v_parent v)) None (Some RTHistory) (v_data v) true) acc ++
+  [mkResp 404 None None None None [] true].
+Proof.
+  intros Hcfg Hc acc Hne HlenE walk Hor.
+  assert (HorH : horacle_ok h) by (apply horacle_ok_from_app in Hor; tauto).
+  set (L := lib_of allow h) in *.
+  assert (HolL : oracle_ok L) by (apply (lib_oracle allow h [] []); [auto|exact HorH]).
+  destruct (http_is_lib_a cfg allow _ Hcfg [] a_empty (Inv_empty []) HorH) as [HrH _].
+  destruct (http_is_lib_a cfg allow _ Hcfg [] a_empty (Inv_empty []) Hor) as [HrF _].
+  unfold haresponses. rewrite HrF, HrH. clear HrF HrH. fold L.
+  set (pes := combine (base_of acc :: ids_of acc) Es) in *.
+  assert (Hfst : map fst pes = base_of acc :: ids_of acc).
+  { unfold pes. apply map_fst_combine_len. cbn [length]. unfold ids_of. rewrite map_length. lia. }
+  rewrite lib_of_app. fold L. unfold walk. rewrite (lib_of_gcvs allow c pes Hc).
+  pose proof (reachable_inv cfg L HolL) as (Hok & _).
+  rewrite arun_app. cbn [fst]. rewrite (gcv_run_env cfg _ c pes Hok), Hfst.
+  (* the library walk *)
+  pose proof (walk_returns_accepted cfg L c HolL) as Hw. cbv zeta in Hw. fold acc in Hw. specialize (Hw Hne).
+  unfold walk_ops in Hw. unfold aresponses in Hw. rewrite arun_app in Hw. cbn [fst] in Hw.
+  apply app_inv_head in Hw. rewrite Hw.
+  set (R := fst (arun cfg a_empty L)) in *.
+  assert (HlenR : length R = length L) by apply arun_length.
+  rewrite hresps_of_app. fold L. rewrite hresps_of_tail by (fold L; lia).
+  rewrite skipn_app_le by lia. rewrite <- HlenR, skipn_all, app_nil_l. f_equal.
+  rewrite (hresps_of_gcvs cfg allow c pes Hc).
+  - rewrite map_app, map_map. cbn [map encode default_headers plain rs_status rs_version_id rs_parent_id rs_snapshot_req rs_ctype rs_body]. reflexivity.
+  - rewrite app_length, map_length. cbn [length]. unfold pes. rewrite combine_length. cbn [length]. unfold ids_of. rewrite map_length. lia.
+Qed.
+
+Theorem http_chain_walk k cfg allow h c Es : cfg_ok cfg -> client_id_header allow (COk c) = inl c ->
+  let acc := accepted c (lib_of allow h) (responses k cfg (lib_of allow h)) in
+  acc <> [] -> length Es = S (length acc) ->
+  let walk := hgcvs c (combine (base_of acc :: ids_of acc) Es) in
+  horacle_ok (h ++ walk) ->
+  hresponses k cfg allow (h ++ walk) =
+  hresponses k cfg allow h ++
+  map (fun v => mkResp 200 (Some (v_id v)) (Some (v_parent v)) None (Some RTHistory) (v_data v) true) acc ++
+  [mkResp 404 None None None None [] true].
+Proof.
+  intros Hcfg Hc acc Hne HlenE walk Hor.
+  assert (HorH : horacle_ok h) by (apply horacle_ok_from_app in Hor; tauto).
+  assert (HolL : oracle_ok (lib_of allow h)) by (apply (lib_oracle allow h [] []); [auto|exact HorH]).
+  unfold walk, acc in *. rewrite (responses_agree k cfg _ HolL) in *.
+  rewrite (hresponses_agree k cfg allow _ Hcfg Hor), (hresponses_agree k cfg allow _ Hcfg HorH).
+  apply (http_chain_walk_a cfg allow h c Es Hcfg Hc Hne HlenE Hor).
+Qed.
